@@ -1554,7 +1554,7 @@ def vm_crosscheck(ctx, sample):
     import re
     from common import coq_eval
     body = [VM_PRELUDE] + ["Eval vm_compute in (%s)." % coq_request(line) for line, _ in sample]
-    out = coq_eval(ctx["verif"], "C05", "crosscheck", "\n".join(body) + "\n", timeout=120)
+    out = coq_eval(ctx["verif"], "C05", "crosscheck", "\n".join(body) + "\n", timeout=600)
     blocks = re.split(r"^\s*= ", out, flags=re.M)[1:]
     bad = []
     for i, (line, ans) in enumerate(sample):
